@@ -28,3 +28,7 @@ func NewCached(inner istorage.IAppStorage, t timeu.ITime, maxBytes int) (istorag
 
 // AppQName used by the harness storages
 func AppQName() appdef.AppQName { return appQName }
+
+// FixedProvider: an IAppStorageProvider that hands out st for every app (like the uncached provider of
+// voedger, which returns one and the same storage per app)
+func FixedProvider(st istorage.IAppStorage) istorage.IAppStorageProvider { return &fixedProvider{st: st} }
